@@ -92,6 +92,15 @@ func loadDir(dir string) *pkg {
 	return p
 }
 
+// loadFile parses one file (used for the expected-keeper interfaces).
+func loadFile(path string) *ast.File {
+	af, err := parser.ParseFile(token.NewFileSet(), path, nil, 0)
+	if err != nil {
+		return nil
+	}
+	return af
+}
+
 func rel(p *pkg, pos token.Pos) string {
 	ps := p.fset.Position(pos)
 	r, err := filepath.Rel(repo, ps.Filename)
@@ -286,6 +295,7 @@ func visit(n ast.Node, c wctx) {
 				if fl, ok := a.(*ast.FuncLit); ok {
 					in := c
 					in.wrapped++
+					analyzeClosure(fl, in, rel(c.p, x.Pos()))
 					visit(fl.Body, in)
 				} else {
 					visit(a, c)
@@ -602,7 +612,8 @@ func main() {
 	w("Wrapper shape read from %s. -/\n", shPos)
 	w("namespace Comdex.Gen.Hooks\n\n")
 	w("structure Blocker where\n  name : String\n  file : String\n  top : List String\nderiving DecidableEq, Repr\n\n")
-	w("structure UnitSite where\n  blocker : String\n  fn : String\n  inFn : String\n  nest : Nat\n  loop : Bool\n  pos : String\nderiving DecidableEq, Repr\n\n")
+	w("structure UnitSite where\n  blocker : String\n  fn : String\n  inFn : String\n  nest : Nat\n  loop : Bool\n  pos : String\n  liveCtx : Bool\n  returnsNonNil : Bool\nderiving DecidableEq, Repr\n\n")
+	w("structure ErrSite where\n  blocker : String\n  fn : String\n  inFn : String\n  unit : String\n  callee : String\n  disp : String\n  pos : String\nderiving DecidableEq, Repr\n\n")
 	w("structure Entry where\n  blocker : String\n  fn : String\n  inFn : String\n  kind : String\n  callee : String\n  wrapped : Bool\n  loop : Bool\n  pos : String\nderiving DecidableEq, Repr\n\n")
 	w("def wrapper : Comdex.Hooks.WrapperShape :=\n  { deferRecover := %s, recoverSetsErr := %s, runsOnCache := %s, writeInErrNil := %s, writeElsewhere := %s }\n\n",
 		b(sh.deferRecover), b(sh.recoverSetsErr), b(sh.runsOnCache), b(sh.writeInErrNil), b(sh.writeElsewhere))
@@ -628,7 +639,8 @@ func main() {
 		if i := strings.LastIndex(inFn, ">"); i >= 0 {
 			inFn = inFn[i+1:]
 		}
-		w("  ⟨%s, %s, %s, %d, %s, %s⟩%s\n", q(u.blocker), q(u.fn), q(inFn), u.nest, b(u.loop), q(u.pos), sep)
+		uf := unitFacts[u.pos]
+		w("  ⟨%s, %s, %s, %d, %s, %s, %s, %s⟩%s\n", q(u.blocker), q(u.fn), q(inFn), u.nest, b(u.loop), q(u.pos), b(uf[0]), b(uf[1]), sep)
 	}
 	w("]\n\n")
 	// entries: split into the unwrapped ones (the obligations range over these) and the wrapped ones
@@ -655,6 +667,19 @@ func main() {
 		}
 		w("]\n\n")
 	}
+	w("def errorSites : List ErrSite := [\n")
+	for i, e := range errSites {
+		sep := ","
+		if i == len(errSites)-1 {
+			sep = ""
+		}
+		inFn := e.fn
+		if j := strings.LastIndex(inFn, ">"); j >= 0 {
+			inFn = inFn[j+1:]
+		}
+		w("  ⟨%s, %s, %s, %s, %s, %s, %s⟩%s\n", q(e.blocker), q(e.fn), q(inFn), q(e.unit), q(e.callee), q(e.disp), q(e.pos), sep)
+	}
+	w("]\n\n")
 	emit("unwrapped", un)
 	emit("wrappedEntries", wr)
 	w("def entries : List Entry := unwrapped ++ wrappedEntries\n\n")
@@ -665,5 +690,5 @@ func main() {
 	if err := os.WriteFile(out, []byte(sb.String()), 0o644); err != nil {
 		die("%v", err)
 	}
-	fmt.Printf("hooks: %d blockers, %d units, %d entries (%d unwrapped)\n", len(blocks), len(units), len(entries), len(un))
+	fmt.Printf("hooks: %d blockers, %d units, %d entries (%d unwrapped), %d error sites\n", len(blocks), len(units), len(entries), len(un), len(errSites))
 }
